@@ -126,7 +126,6 @@ package iam
 //@   prop C02 C19
 //@   safety
 //@   assume-benign
-//@   loop 1 invariant true
 //@   ensures [addressed-to-this-authorization-server] isNilIface(result) ==> did(call (*url.URL).String #1)
 //@        && (exists k int :: 0 <= k && k < len(audience) && audience[k] == ret(call (*url.URL).String #1))
 //@        && same(*arg(call (*url.URL).String #1, 0), ret(call (Wrapper).subjectToBaseURL #1)) && arg(call (Wrapper).subjectToBaseURL #1, 1) == subject
@@ -220,7 +219,6 @@ package iam
 // after it was stored.
 //@ func (Wrapper).createAccessToken
 //@   prop C02
-//@   loop 1 invariant true
 //@   call (storage.SessionStore).Put #1 requires [stored-token-is-what-was-established]
 //@        typeOf(arg(2)) == AccessToken && arg(2).(AccessToken).Issuer == issuerURL && arg(2).(AccessToken).ClientId == clientID && arg(2).(AccessToken).Scope == scope
 //@        && arg(2).(AccessToken).DPoP == dpopToken && same(arg(2).(AccessToken).IssuedAt, issueTime)
@@ -302,8 +300,6 @@ package iam
 //@ func (Wrapper).validatePresentationNonce
 //@   prop C02 C05
 //@   assume-benign
-//@   loop 1 invariant true
-//@   loop 2 invariant true
 //@   ensures [nonce-taken-and-bound-to-the-state] isNilIface(result) ==> did(call (storage.SessionStore).GetAndDelete #1) && isNilIface(ret(call (storage.SessionStore).GetAndDelete #1))
 //@        && len(nonces) == 1 && arg(call (storage.SessionStore).GetAndDelete #1, 1) == nonces[0] && state == stateFromNonce
 //@ func withCallbackURI
